@@ -276,6 +276,8 @@ def run(ctx):
     e11(ctx)          # candidate scans start afresh on every round (no one-shot iterator re-walked)
     from . import c02
     c02.r02b(ctx)     # swapping two unequal list elements costs something only if unequal leaves cost something
+    from .c01 import r01c
+    r01c(ctx)         # a comparison does not consume the members it matched: a tree compared twice equals its permuted copy both times
     from .c18 import r18a
     r18a(ctx)         # distinct keys stay distinct nodes (a bytes key stored as text collides with that text: last in source order wins)
     c02.r02f(ctx)
